@@ -99,6 +99,45 @@ func displacementScenarios() []clustermc.Scenario {
 			}
 		}
 	}
+	// several pending workloads: one whose queue holds no victim next to one whose queue does
+	type pair struct{ vs, ps []victim }
+	pairs := []pair{
+		{[]victim{{"qa", "p75"}, {"qa", "p75"}, {"qb", "p50"}, {"qb", "p50"}}, []victim{{"qa", "p75"}, {"qb", "p75"}}},
+		{[]victim{{"qb", "p75"}, {"qb", "p75"}, {"qa", "p50"}, {"qa", "p50"}}, []victim{{"qa", "p75"}, {"qb", "p75"}}},
+		{[]victim{{"qa", "p50"}, {"qb", "p50"}}, []victim{{"qa", "p75"}, {"qb", "p75"}}},
+		{[]victim{{"qa", "p100"}, {"qb", "p50"}}, []victim{{"qa", "p75"}, {"qb", "p75"}}},
+		{[]victim{{"qa", "p75"}, {"qb", "p50"}, {"qc", "p50"}}, []victim{{"qa", "p75"}, {"qb", "p75"}, {"qc", "p75"}}},
+		{[]victim{{"qa", "p75"}, {"qb", "p75"}, {"qc", "p50"}}, []victim{{"qa", "p75"}, {"qb", "p75"}, {"qc", "p75"}}},
+		{[]victim{{"qc", "p75"}, {"qb", "p75"}, {"qa", "p50"}}, []victim{{"qa", "p125"}, {"qb", "p75"}, {"qc", "p75"}}},
+		{[]victim{{"qa", "p50"}, {"qa", "p50"}, {"qb", "p75"}}, []victim{{"qa", "p75"}, {"qa", "p75"}, {"qb", "p75"}}},
+	}
+	for ti, tr := range trees {
+		for pi, pr := range pairs {
+			for _, twoNodes := range []bool{false, true} {
+				b := world.NewBuilder()
+				half := len(pr.vs) / 2
+				if twoNodes && half >= 1 {
+					b.Node(world.NodeOpt{Name: "n1", CPU: "16", Mem: "32Gi", GPUs: len(pr.vs) - half, GPUMemMiB: 40000})
+					b.Node(world.NodeOpt{Name: "n2", CPU: "16", Mem: "32Gi", GPUs: half, GPUMemMiB: 40000})
+				} else {
+					b.Node(world.NodeOpt{Name: "n1", CPU: "16", Mem: "32Gi", GPUs: len(pr.vs), GPUMemMiB: 40000})
+				}
+				tr.add(b)
+				for i, v := range pr.vs {
+					node := "n1"
+					if twoNodes && half >= 1 && i >= len(pr.vs)-half {
+						node = "n2"
+					}
+					b.Workload(world.WL{Name: name("v", []int{i}), Queue: v.q, PC: v.pc, Pods: pods(1, shG1, world.StRunning, node)})
+				}
+				for i, pd := range pr.ps {
+					b.Workload(world.WL{Name: name("p", []int{i}), Queue: pd.q, PC: pd.pc, Pods: pods(1, shG1, "", "")})
+				}
+				out = append(out, clustermc.Scenario{Name: name("displace-many", []int{ti, pi, btoi(twoNodes)}), World: b.Done(),
+					Configs: append(append([]schedrun.Config{}, cfgs...), schedrun.Config{Signatures: true, Placement: "spread", MapSeed: 3})})
+			}
+		}
+	}
 	return out
 }
 
@@ -132,10 +171,13 @@ func C05() *clustermc.Family {
 			return 2
 		},
 		Env:     clustermc.EnvOpts{BindOK: true, Terminate: true},
-		Oracles: []clustermc.Oracle{oracle.WorkConservationOracle(), oracle.DisplacementOracle()},
+		Oracles: []clustermc.Oracle{oracle.WorkConservationOracle(), oracle.DisplacementOracle(), oracle.MultiPendingPreemptOracle()},
 		Vacuity: func(x map[string]int) string {
 			if x["displacement_cases"] < 50 {
 				return "too few displacement cases"
+			}
+			if x["multi_pending_displacement_cases"] < 20 {
+				return "too few displacement cases with several pending workloads"
 			}
 			if x["pending_does_not_fit"] < 100 {
 				return "work-conservation oracle rarely exercised"
